@@ -82,6 +82,7 @@ class Roles:
             raise AnalysisError(f"{self.insert.qual}: cannot identify the arc builder (methods called: {sorted(others)})")
         self.add = adders[0]
         self.connect = self.new_node = None
+        self.node_cls = None
         for _, t in self.self_calls(self.add):
             ctors = [c for c in cg.calls_in(t) if c.kind == 'ctor' and c.targets and c.targets[0].module is self.mod]
             if len(ctors) == 1 and len(t.params) >= 3:
@@ -90,6 +91,14 @@ class Roles:
                 self.new_node, self.node_cls = t, ctors[0].targets[0].cls
         if self.connect is None:
             raise AnalysisError(f"{self.add.qual}: no helper that constructs a link between two nodes")
+        if self.node_cls is None:
+            # no fresh-node helper: the arc builder creates its nodes itself (`n = _PNode(); self.__nodes.append(n)`)
+            own = {c.targets[0].cls for c in cg.calls_in(self.add) if c.kind == 'ctor' and c.targets
+                   and c.targets[0].module is self.mod and c.targets[0].cls not in (self.link_cls, self.cls)}
+            if len(own) != 1:
+                raise AnalysisError(f"{self.add.qual}: cannot identify the node class of the network (neither a fresh-node helper "
+                                    f"nor constructor calls of one module class: {sorted(own)})")
+            self.node_cls = next(iter(own))
         passes = []
         for c, t in self.self_calls(self.calc):
             if t.kind == 'method' and t not in passes and t not in (self.connect, self.new_node, self.insert, self.add) \
@@ -122,6 +131,68 @@ def _subscript_stores(f: Func):
     return out
 
 
+def _inline_fresh_nodes(R: 'Roles', f: Func) -> Dict[str, Tuple[ast.Call, Optional[str]]]:
+    """locals of f bound exactly once, outside loops and branches, to `<NodeCls>()`: name -> (constructor call, attribute of the
+    calculator list the object is appended to unconditionally | None)"""
+    cfg, fl = cfg_of(f), flow_of(f)
+    out: Dict[str, Tuple[ast.Call, Optional[str]]] = {}
+    for n in walk_no_nested(f.node):
+        if isinstance(n, ast.Assign) and len(n.targets) == 1 and isinstance(n.targets[0], ast.Name) \
+                and match(f"{R.node_cls}()", n.value):
+            nm = n.targets[0].id
+            sn = cfg.node_of(n)
+            if len(fl.defs_of(nm)) != 1 or sn is None or cfg.conditions(sn) or cfg.enclosing_fors(sn):
+                continue
+            out[nm] = (n.value, None)
+    for c in facts.calls_named(f, 'append'):
+        rv = c.func.value
+        if isinstance(rv, ast.Attribute) and isinstance(rv.value, ast.Name) and rv.value.id == f.self_name and len(c.args) == 1 \
+                and isinstance(c.args[0], ast.Name) and c.args[0].id in out:
+            cn = cfg.node_containing(c)
+            if cn is not None and cfg.is_reachable(cn) and not cfg.conditions(cn) and not cfg.enclosing_fors(cn):
+                out[c.args[0].id] = (out[c.args[0].id][0], rv.attr)
+    return out
+
+
+def _param_loops(ctx, f: Func) -> List[Tuple[ast.For, str]]:
+    """for loops of f that range over one of its parameters, possibly through a hoisted local or a list()/set()/sorted()/
+    tuple()/reversed() wrapper: [(loop, parameter name)]"""
+    out = []
+    cfg = cfg_of(f)
+    ex = Expander(ctx.prog, f, ctx.typer, inline=False)
+    for n in walk_no_nested(f.node):
+        if not isinstance(n, ast.For):
+            continue
+        it = n.iter
+        hdr = cfg.node_of(n)
+        if not (isinstance(it, ast.Name) and it.id in f.params) and hdr is not None:
+            try:
+                it = ex.expand(it, hdr)
+            except Exception:       # noqa: BLE001
+                it = n.iter
+        for _ in range(3):
+            if isinstance(it, ast.Call) and isinstance(it.func, ast.Name) and it.func.id in ('list', 'tuple', 'set', 'sorted', 'reversed',
+                                                                                           'frozenset', 'iter') and len(it.args) == 1:
+                it = it.args[0]
+        if isinstance(it, ast.Name) and it.id in f.params and it.id != f.self_name:
+            out.append((n, it.id))
+    return out
+
+
+def _unpacked(fl, name: ast.Name, at) -> Optional[ast.AST]:
+    """the element of the right-hand tuple bound to `name` by its unique reaching definition `a, b = X, Y`"""
+    d = fl.unique_def(name.id, at) if at is not None else None
+    st = getattr(d, 'stmt', None)
+    if d is None or d.kind != 'unpack' or not isinstance(st, ast.Assign) or len(st.targets) != 1:
+        return None
+    tg, val = st.targets[0], st.value
+    if isinstance(tg, (ast.Tuple, ast.List)) and isinstance(val, (ast.Tuple, ast.List)) and len(tg.elts) == len(val.elts):
+        for t, v in zip(tg.elts, val.elts):
+            if isinstance(t, ast.Name) and t.id == name.id and not isinstance(v, ast.Starred):
+                return v
+    return None
+
+
 def _before(cfg, a, b) -> bool:
     """a executes before b and never after it"""
     return a is not None and b is not None and cfg.can_reach(a, b) and not cfg.can_reach(b, a)
@@ -136,11 +207,46 @@ def _before_in_iteration(cfg, a, b, hdr) -> bool:
     return b.id in fwd and a.id not in back
 
 
+def _hoist(ctx):
+    """before anything of the calculator is analysed: helpers that the reference tree does not have and that are called inside
+    an expression (`for n in self.__nodes + [self.__attach_terminal_nodes()]`) are spliced into their callers, so that the
+    rules see the statements where they expect them (sa.normalize does this only for calls that are a whole statement)"""
+    prog, cg = ctx.prog, ctx.cg
+    if getattr(prog, '_c12_hoisted', False):
+        return
+    prog._c12_hoisted = True
+    try:
+        from sa import normalize
+        base_funcs = normalize.baseline().get('functions') or set()
+    except Exception:       # noqa: BLE001
+        return
+    if not base_funcs:
+        return
+    entry = prog.func(ENTRY)
+    ctor = [ci for ci in cg.calls_in(entry) if ci.kind == 'ctor' and ci.targets]
+    if len(ctor) != 1:
+        return
+    init = ctor[0].targets[0]
+    hosts = [f for f in prog.all_funcs() if f.module is init.module and f.cls == init.cls and f.kind in ('method', 'static')]
+    log = U.hoist_helpers(prog, hosts, init.cls, init.module, base_funcs)
+    if log:
+        # nothing of the hosts has been analysed yet at this point; drop whatever an engine cache may hold all the same
+        import sa.cfg as _cfgm
+        import sa.flow as _flowm
+        for h in hosts:
+            getattr(ctx.typer, '_local_cache', {}).pop(id(h.node), None)
+            getattr(cg, '_calls', {}).pop(h.qual, None)
+            getattr(_cfgm, '_CFG_CACHE', {}).pop(id(h.node), None)
+            getattr(_flowm, '_FLOWS', {}).pop(id(h.node), None)
+        prog.normalisation_log = list(getattr(prog, 'normalisation_log', [])) + ['c12: ' + l for l in log]
+
+
 # ---------------------------------------------------------------------------------------------------------------------
 def check(ctx):
     ctx.assume("the WBS is acyclic (quantifier of C12); Task.all_parents / predecessors / children are the relations of C01")
     ctx.assume("term expansion assumes no aliasing writes between a definition and its use inside one function")
     try:
+        _hoist(ctx)
         R = Roles(ctx)
     except AnalysisError as e:
         o = ctx.ob('no-float-eq', 'R8', "calculator anchors", floor=1)
@@ -218,15 +324,18 @@ def _discover(ctx, R: Roles, model):
             rv = c.func.value
             if isinstance(rv, ast.Attribute) and isinstance(rv.value, ast.Name) and rv.value.id == R.new_node.self_name:
                 model.setdefault('nodes_attr', rv.attr)
+    else:
+        for nm, (_, at_) in _inline_fresh_nodes(R, add).items():
+            if at_ is not None:
+                model.setdefault('nodes_attr', at_)
     for c in R.calls_to(add, con):
         if not acfg.enclosing_fors(acfg.node_containing(c)):
             b = bind_args(c, con)
             model.setdefault('arc_start', b.get(via.get('start')))
             model.setdefault('arc_end', b.get(via.get('end')))
-    for n in walk_no_nested(add.node):
-        if isinstance(n, ast.For) and isinstance(n.iter, ast.Name) and n.iter.id in add.params:
-            model.setdefault('dep_loop', n)
-            model.setdefault('pred_param', n.iter.id)
+    for n, pp_ in _param_loops(ctx, add):
+        model.setdefault('dep_loop', n)
+        model.setdefault('pred_param', pp_)
     calls = R.calls_to(ins, add)
     if len(calls) == 1:
         model['add_call'] = calls[0]
@@ -342,25 +451,54 @@ def _leaf_arcs(ctx, R: Roles, model, o):
         return
     units_param = u.id
     s_arg, e_arg = cb.get(p_start), cb.get(p_end)
-    fresh = []
-    for a in (s_arg, e_arg):
-        ok = False
-        if isinstance(a, ast.Call):
-            tg = [t for c, t in R.self_calls(add) if c is a or same(c, a)]
-            ok = bool(tg) and tg[0] is R.new_node
-        fresh.append(ok)
-    if not all(fresh) or R.new_node is None:
-        o.undecided(add, st, linkcall, "start / end of the arc are not results of the fresh-node helper")
-        return
-    # distinct nodes: the two arguments must come from two different calls of the fresh-node helper
     orig = [c for c in R.calls_to(add, con) if not acfg.enclosing_fors(acfg.node_containing(c))]
     oc = bind_args(orig[0], con) if orig else {}
     fla = flow_of(add)
+    inline_nodes = _inline_fresh_nodes(R, add)
+    fresh = []
+    inline_attrs = []
+    for a, pn in ((s_arg, p_start), (e_arg, p_end)):
+        ok = False
+        if isinstance(a, ast.Name) and orig:
+            a = _unpacked(fla, a, acfg.node_containing(orig[0])) or a      # `first, last = self.__new_node(), self.__new_node()`
+        if isinstance(a, ast.Call):
+            tg = [t for c, t in R.self_calls(add) if c is a or same(c, a)]
+            ok = bool(tg) and R.new_node is not None and tg[0] is R.new_node
+            oa = oc.get(pn)
+            at_o = acfg.node_containing(orig[0]) if orig else None
+            for _ in range(4):          # `start = node` aliases of the created node
+                if isinstance(oa, ast.Name) and oa.id not in inline_nodes and at_o is not None:
+                    d_ = fla.unique_def(oa.id, at_o)
+                    if d_ is not None and d_.kind == 'assign' and isinstance(d_.value, ast.Name) and d_.node is not None \
+                            and len(fla.defs_of(oa.id)) == 1:
+                        oa, at_o = d_.value, d_.node
+                        continue
+                break
+            if not ok and match(f"{R.node_cls}()", a) and isinstance(oa, ast.Name) and oa.id in inline_nodes:
+                # the node is created in place: `n = _PNode(); self.<nodes>.append(n)`
+                ok = True
+                inline_attrs.append((oa.id, inline_nodes[oa.id][1]))
+        fresh.append(ok)
+    if not all(fresh):
+        o.undecided(add, st, linkcall, "start / end of the arc are not results of the fresh-node helper")
+        return
+    for nm, at_ in inline_attrs:
+        if at_ is None:
+            o.refute(add, st, nm, f"the freshly created node `{nm}` is not (unconditionally) appended to the calculator's node list: "
+                                  f"the passes never visit it")
+            return
+    # distinct nodes: the two arguments must come from two different calls of the fresh-node helper
 
     def origin(a, at):
         for _ in range(6):
             if isinstance(a, ast.Name):
                 d = fla.unique_def(a.id, at)
+                if d is not None and d.kind == 'unpack':
+                    u_ = _unpacked(fla, a, at)
+                    if u_ is None:
+                        return None
+                    a, at = u_, d.node
+                    continue
                 if d is None or d.kind != 'assign':
                     return None
                 a, at = d.value, d.node
@@ -377,21 +515,30 @@ def _leaf_arcs(ctx, R: Roles, model, o):
     model['arc_end'] = oc.get(p_end)
     nn = R.new_node
     nodes_attr = None
-    rets = [n for n in walk_no_nested(nn.node) if isinstance(n, ast.Return)]
-    exn = Expander(prog, nn, ctx.typer, inline=False)
-    ok_ret = len(rets) == 1 and rets[0].value is not None and match(f"{R.node_cls}()", exn.expand(rets[0].value))
-    for c in facts.calls_named(nn, 'append'):
-        if isinstance(c.func.value, ast.Attribute) and isinstance(c.func.value.value, ast.Name) and \
-                c.func.value.value.id == nn.self_name and c.args and ok_ret and same(c.args[0], rets[0].value) \
-                and not cfg_of(nn).conditions(cfg_of(nn).node_containing(c)):
-            nodes_attr = c.func.value.attr
-    if not ok_ret:
-        o.undecided(nn, nn.node, nn.name, f"fresh-node helper does not return a new {R.node_cls}()")
+    if len(inline_attrs) == 2:
+        if inline_attrs[0][1] != inline_attrs[1][1]:
+            o.undecided(add, st, linkcall, "the two nodes of the arc are registered in two different lists")
+            return
+        nodes_attr = inline_attrs[0][1]
+    elif inline_attrs or nn is None:
+        o.undecided(add, st, linkcall, "the nodes of the arc are created in two different ways")
         return
-    if nodes_attr is None:
-        o.refute(nn, nn.node, nn.name, "a freshly created node is not (unconditionally) appended to the calculator's node list: "
-                                       "the passes never visit it")
-        return
+    else:
+        rets = [n for n in walk_no_nested(nn.node) if isinstance(n, ast.Return)]
+        exn = Expander(prog, nn, ctx.typer, inline=False)
+        ok_ret = len(rets) == 1 and rets[0].value is not None and match(f"{R.node_cls}()", exn.expand(rets[0].value))
+        for c in facts.calls_named(nn, 'append'):
+            if isinstance(c.func.value, ast.Attribute) and isinstance(c.func.value.value, ast.Name) and \
+                    c.func.value.value.id == nn.self_name and c.args and ok_ret and same(c.args[0], rets[0].value) \
+                    and not cfg_of(nn).conditions(cfg_of(nn).node_containing(c)):
+                nodes_attr = c.func.value.attr
+        if not ok_ret:
+            o.undecided(nn, nn.node, nn.name, f"fresh-node helper does not return a new {R.node_cls}()")
+            return
+        if nodes_attr is None:
+            o.refute(nn, nn.node, nn.name, "a freshly created node is not (unconditionally) appended to the calculator's node list: "
+                                           "the passes never visit it")
+            return
     model['nodes_attr'] = nodes_attr
     model['id_param'], model['units_param'] = id_param, units_param
     o.site(add, st, f"arc: {src(st)} with link {con.name}(new node, new node, {units_param}); nodes registered in "
@@ -441,6 +588,19 @@ def _leaf_arcs(ctx, R: Roles, model, o):
                         pass
                 missing.append(c)
         if missing:
+            # a test of the children that the rule cannot read is not "no test"
+            seen_children = [t for t, p in conds if any(isinstance(x, ast.Attribute) and x.attr in U.CHILD_ATTRS for x in ast.walk(t))]
+            for r_ in [n for n in walk_no_nested(ins.node) if isinstance(n, ast.Return)]:
+                rn_ = cfg.node_of(r_)
+                if rn_ is not None and not cfg.can_reach(cn, rn_):
+                    seen_children += [t for t, p in cfg.conditions(rn_)
+                                      if any(isinstance(x, (ast.Attribute, ast.Name)) and
+                                             getattr(x, 'attr', getattr(x, 'id', '')) in U.CHILD_ATTRS + ('is_leaf', 'is_summary')
+                                             for x in ast.walk(t))]
+            if seen_children:
+                o.undecided(ins, call, seen_children[0], f"the condition `{src(seen_children[0])[:70]}` looks at the task's children in a "
+                                                         f"form the rule cannot read as `task has no children`")
+                return
             o.refute(ins, call, 'leaf guard', f"nothing stops a task with children from becoming an arc: neither {ins.name} nor "
                                               f"its call site `{src(missing[0])}` tests `len(task.children) == 0`")
             return
@@ -488,29 +648,142 @@ def _leaf_arcs(ctx, R: Roles, model, o):
         o.refute(R.entry, R.ctor_call, targ, f"the calculator is given `{src(tv)}`, not all tasks of the WBS: leaves outside "
                                              f"that selection never become arcs")
     else:
-        o.undecided(R.entry, R.ctor_call, R.ctor_call, "first constructor argument is not `self.tasks`")
+        verdict = _task_selection(tv, self_e) if tv is not None else None
+        if verdict is None:
+            o.undecided(R.entry, R.ctor_call, R.ctor_call, "first constructor argument is not `self.tasks`")
+        elif verdict[0] == 'ok':
+            o.site(R.entry, R.ctor_call, f"calculator receives {verdict[1]}")
+        elif verdict[0] == 'bad':
+            o.refute(R.entry, R.ctor_call, verdict[2],
+                     f"the calculator is seeded only with the tasks of {self_e}.tasks that pass `{src(verdict[2])[:80]}`: a leaf "
+                     f"that fails the test becomes an arc only if a seeded task depends on it, so it can never be reported (a "
+                     f"zero-length / finished task at the end of the longest chain; a WBS where every task fails it gives an empty "
+                     f"result)")
+        else:
+            o.undecided(R.entry, R.ctor_call, verdict[2], f"the calculator is given a selection of {self_e}.tasks under a condition "
+                                                          f"the rule cannot judge: {src(verdict[2])[:80]}")
     if not model['end_none']:
         o.undecided(R.entry, R.ctor_call, R.ctor_call, "end_date argument is not None: the date-filtered mode is not modelled")
     hit = False
+    filtered = []           # (call, test) insert calls that are live with end_date None but skip tasks by a test of the task
+    unclear = []            # (call, why)
+    exi = Expander(prog, init, ctx.typer, inline=False)
+    tasks_attr = model.get('tasks_attr')
+
+    def all_tasks(it, depth=0) -> bool:
+        """the iterable is the whole tasks parameter when no end date was given"""
+        for _ in range(3):
+            m_ = match("list($x)", it) or match("tuple($x)", it) or match("iter($x)", it)
+            if not m_:
+                break
+            it = m_['x']
+        if isinstance(it, ast.Name) and it.id == tasks_p:
+            return True
+        if isinstance(it, ast.IfExp) and depth < 3:
+            nt_ = none_test(it.test, True)
+            if nt_ and isinstance(nt_[0], ast.Name) and nt_[0].id == end_p:
+                return all_tasks(it.body if nt_[1] else it.orelse, depth + 1)
+        return False
+
     for c in R.calls_to(init, ins):
         n = icfg.node_containing(c)
         fors = icfg.enclosing_fors(n)
         if not (fors and isinstance(fors[-1].target, ast.Name) and c.args and isinstance(c.args[0], ast.Name)
-                and c.args[0].id == fors[-1].target.id and isinstance(fors[-1].iter, ast.Name) and fors[-1].iter.id == tasks_p):
+                and c.args[0].id == fors[-1].target.id):
+            unclear.append((c, "the insert call is not applied to the variable of an enclosing for loop"))
             continue
-        cs = facts.node_conditions(prog, init, c, ctx.typer, expand=False)
-        # a `task has no children` filter of the inserted task loses nothing: summaries never become arcs
-        cs = [(t, p) for t, p in cs if not ((lambda lt: lt and lt[1] and same(lt[0], c.args[0]))(leaf_test(t, p)))]
-        if _conds_hold_when_none(cs, end_p):
+        lv_ = fors[-1].target.id
+        cs = []
+        for t, p in facts.node_conditions(prog, init, c, ctx.typer, expand=False):
+            cs += facts.split_conj(t, p)
+        # dead when no end date was given?
+        if any((lambda nt: nt and isinstance(nt[0], ast.Name) and nt[0].id == end_p and not nt[1])(none_test(t, p)) for t, p in cs):
+            continue
+        try:
+            itx = exi.expand(fors[-1].iter, icfg.node_of(fors[-1]))
+        except Exception:       # noqa: BLE001
+            itx = fors[-1].iter
+        if not all_tasks(itx):
+            unclear.append((c, f"the loop ranges over `{src(itx)[:60]}`, not plainly over `{tasks_p}`"))
+            continue
+        rest = []
+        for t, p in cs:
+            lt = leaf_test(t, p)
+            if lt and lt[1] and same(lt[0], c.args[0]):
+                continue        # a `task has no children` filter of the inserted task loses nothing: summaries never become arcs
+            mt_ = _member_test(t, p, lv_)
+            if mt_ and not mt_[3] and mt_[1] == tasks_attr:
+                continue        # `if t.id not in self.<tasks>`: the insert's own "already inserted" test moved to the call site
+            if _conds_hold_when_none([(t, p)], end_p):
+                continue
+            rest.append((t, p))
+        if not rest:
             hit = True
             o.site(init, c, f"every element of `{tasks_p}` is inserted when {end_p} is None")
+            continue
+        ef = [(t, p) for t, p in rest if U.element_filter(t, {lv_}) is not None]
+        if ef:
+            filtered.append((c, ef[0]))
+        else:
+            unclear.append((c, "the insert call runs under a condition the rule cannot judge: " + ', '.join(facts.cond_texts(rest))))
     if not hit:
         calls_i = R.calls_to(init, ins)
-        if calls_i:
-            o.refute(init, calls_i[0], calls_i[0], f"with {end_p}=None not every task of `{tasks_p}` is inserted (the insert call is "
-                                                   f"filtered or does not range over `{tasks_p}`)")
-        else:
+        foreign = [t for _, t in R.self_calls(init) if t is not ins]
+        if filtered and not unclear:
+            c, (t, p) = filtered[0]
+            o.refute(init, c, c, f"with {end_p}=None not every task of `{tasks_p}` is inserted: the insert call is skipped unless "
+                                 f"`{'' if p else 'not '}{src(t)[:70]}`")
+        elif not calls_i and not foreign:
             o.refute(init, init.node, init.name, "the constructor inserts no task")
+        elif unclear:
+            o.undecided(init, unclear[0][0], unclear[0][0], f"cannot establish that every task is inserted when {end_p} is None: "
+                                                            + unclear[0][1])
+        else:
+            o.undecided(init, init.node, init.name, f"cannot establish that every task is inserted when {end_p} is None")
+
+
+def _task_selection(tv: ast.AST, self_e: str):
+    """the calculator's task argument as a selection of self.tasks:
+    ('ok', text, None) all tasks, possibly without summaries | ('bad', text, test) filtered by a test of the task itself |
+    ('unknown', text, test) | None: not a selection of self.tasks at all"""
+    for _ in range(3):
+        m = match("list($x)", tv) or match("tuple($x)", tv) or match("_ImmutableTaskList($x)", tv) or match("_to_list($x)", tv)
+        if not m:
+            break
+        tv = m['x']
+    if match(f"{self_e}.tasks", tv):
+        return 'ok', f"{self_e}.tasks (all tasks of the WBS)", None
+    if isinstance(tv, ast.Call) and isinstance(tv.func, ast.Name) and tv.func.id == 'filter' and len(tv.args) == 2 \
+            and not tv.keywords and isinstance(tv.args[0], ast.Lambda) and len(tv.args[0].args.args) == 1 \
+            and not tv.args[0].args.defaults:
+        tgt = ast.Name(id=tv.args[0].args.args[0].arg, ctx=ast.Load())
+        elt, it, ifs = tgt, tv.args[1], [tv.args[0].body]
+    else:
+        parts = facts.comp_parts(tv)
+        if not parts:
+            return None
+        elt, tgt, it, ifs = parts
+    if not (isinstance(tgt, ast.Name) and isinstance(elt, ast.Name) and elt.id == tgt.id and match(f"{self_e}.tasks", it)):
+        return None
+    atoms = []
+    for c in ifs:
+        atoms += facts.split_conj(c, True)
+    unknown = None
+    for a, p in atoms:
+        lt = leaf_test(a, p)
+        if lt and isinstance(lt[0], ast.Name) and lt[0].id == tgt.id:
+            if lt[1]:
+                continue                    # summaries never become arcs: leaving them out loses nothing
+            return 'bad', src(tv), a       # only summaries
+        nt = none_test(a, p)
+        if nt and isinstance(nt[0], ast.Name) and nt[0].id == tgt.id and not nt[1]:
+            continue                        # `t is not None`
+        if U.element_filter(a, {tgt.id}) is not None:
+            return 'bad', src(tv), (a if p else ast.UnaryOp(op=ast.Not(), operand=a))
+        unknown = unknown or a
+    if unknown is not None:
+        return 'unknown', src(tv), unknown
+    return 'ok', f"every task of {self_e}.tasks" + (" that has no children" if atoms else ""), None
 
 
 def _conds_hold_when_none(conds, end_p) -> bool:
@@ -557,11 +830,14 @@ def _work_term(wt: ast.AST, task_p: str) -> Tuple[str, str]:
         elif ca is not None and cb is None:
             inner, clamp = m['b'], ca
     if inner is None:
-        for pat, pos in (("$x if $x > 0 else $z", True), ("$x if $x >= 0 else $z", True), ("$z if $x < 0 else $x", True),
-                         ("$z if $x <= 0 else $x", True)):
+        for pat in ("$x if $x > $c else $z", "$x if $x >= $c else $z", "$z if $x < $c else $x", "$z if $x <= $c else $x",
+                    "$x if $c < $x else $z", "$x if $c <= $x else $z", "$z if $c > $x else $x", "$z if $c >= $x else $x"):
             m = match(pat, wt)
-            if m and facts.const_num(m['z']) is not None:
+            if m and facts.const_num(m['z']) is not None and facts.const_num(m['c']) is not None:
+                if facts.const_num(m['z']) != facts.const_num(m['c']):
+                    return 'unknown', f"threshold {facts.const_num(m['c'])} and replacement value {facts.const_num(m['z'])} differ"
                 inner, clamp = m['x'], facts.const_num(m['z'])
+                break
     if inner is None:
         core = wt
         bad_wrap = None
@@ -697,10 +973,9 @@ def _inherit_registered(ctx, R: Roles, model, o_inh, o_reg):
     # the predecessor parameter of the arc builder = the one it iterates to add dependency arcs
     acfg = cfg_of(add)
     pred_param = None
-    for n in walk_no_nested(add.node):
-        if isinstance(n, ast.For) and isinstance(n.iter, ast.Name) and n.iter.id in add.params:
-            pred_param = n.iter.id
-            model['dep_loop'] = n
+    for n, pp_ in _param_loops(ctx, add):
+        pred_param = pp_
+        model['dep_loop'] = n
     if pred_param is None:
         o_inh.undecided(add, add.node, add.name, "the arc builder does not iterate one of its parameters to add dependency arcs")
         o_reg.undecided(add, add.node, add.name, "the arc builder does not iterate one of its parameters to add dependency arcs")
@@ -777,6 +1052,16 @@ def _inherit_registered(ctx, R: Roles, model, o_inh, o_reg):
         helpers = [f"{q.split('.')[-1]}: {v[1]}" for q, v in cache.items() if v[0]]
         o.site(ins, call, "each predecessor expanded to its leaves" + (f" (helper {'; '.join(helpers)})" if helpers else ''))
     for k in cond_paths:
+        # a test of the drawn tasks themselves (`[l for l in leaves(p) if len(l.successors) == 0]`) narrows the set: the tasks
+        # that fail it are not bound by the dependency.  (Complementary filters of one path have been merged by _simplify.)
+        filt = sorted({a for alt in objs[k] for a in alt if U.is_filter_atom(a)})
+        if filt:
+            shown = filt[0].replace(U.FILTER_MARK, '', 1)
+            o.refute(ins, call, f"{U.path_text(k, task_p)} if {shown}",
+                     f"the dependency sources `{U.path_text(k, task_p)}` are narrowed by a test of the tasks themselves (`{shown}`): "
+                     f"the tasks that fail it get no dependency arc, but a predecessor (and, for a summary, every one of its leaves) "
+                     f"binds the task")
+            continue
         o.undecided(ins, call, U.path_text(k, task_p), f"`{U.path_text(k, task_p)}` contributes only under a condition the rule cannot "
                                                         f"discharge: {U.cond_text(objs[k])}")
 
@@ -798,6 +1083,12 @@ def _inherit_registered(ctx, R: Roles, model, o_inh, o_reg):
     except Unknown as e:
         o.undecided(ins, call, e.node if isinstance(e.node, ast.AST) else call, "recursive insert: " + e.msg)
         return
+    # `if p.id not in self.<tasks>: self.__insert_task(p)`: a task that fails the test has been inserted earlier
+    import re as _re
+    tab_ = _re.escape(str(model.get('tasks_attr')))
+    memo_atom = _re.compile(r"^(\w+\.\w+ not in self\." + tab_ + r"(\.keys\(\))?|not \w+\.\w+ in self\." + tab_ +
+                            r"(\.keys\(\))?|self\." + tab_ + r"\.get\(\w+\.\w+\) is None)$")
+    inserted = {k: U._simplify([frozenset(a for a in alt if not memo_atom.match(a)) for alt in c]) for k, c in inserted.items()}
     missing = [k for k in objs if k not in inserted or (U.unconditional(objs[k]) and not U.unconditional(inserted[k]))]
     if not rec_calls:
         o.refute(ins, call, 'recursive insert', "predecessors are never inserted: their ids are not keys of the arc table "
@@ -830,11 +1121,10 @@ def _inherit_registered(ctx, R: Roles, model, o_inh, o_reg):
             if lt and isinstance(lt[0], ast.Name) and lt[0].id == task_p:
                 kinds.add('summary' if not lt[1] else 'leaf')
                 continue
-            m = match(f"{task_p}.$k in self.$tab", t) or match(f"{task_p}.$k in self.$tab.keys()", t) or \
-                match(f"self.$tab.get({task_p}.$k) is not None", t)
-            if m and p:
+            mt = _member_test(t, p, task_p)
+            if mt and mt[3]:
                 kinds.add('memo')
-                memo = (r, m['tab'], m['k'])
+                memo = (r, mt[1], mt[2])
                 continue
             kinds.add('?')
         if kinds <= {'summary', 'memo', 'leaf'} and ('summary' in kinds or 'memo' in kinds) and len(cs) >= 1:
@@ -851,10 +1141,10 @@ def _inherit_registered(ctx, R: Roles, model, o_inh, o_reg):
                     if lt and isinstance(lt[0], ast.Name) and lt[0].id == task_p and not lt[1]:
                         ks.add('summary')
                         continue
-                    m = match(f"{task_p}.$k in self.$tab", v)
-                    if m:
+                    mt = _member_test(v, True, task_p)
+                    if mt and mt[3]:
                         ks.add('memo')
-                        memo = (r, m['tab'], m['k'])
+                        memo = (r, mt[1], mt[2])
                         continue
                     ks.add('?')
                 if ks <= {'summary', 'memo'}:
@@ -864,8 +1154,19 @@ def _inherit_registered(ctx, R: Roles, model, o_inh, o_reg):
                 unknown_ret = True
                 o.undecided(ins, r, 'return', "early return of the insert under a condition that is neither `task has children` nor "
                                               "`task already inserted`: " + ', '.join(facts.cond_texts(cs)))
+    # nesting instead of guard clauses: `if len(task.children) == 0 and task.id not in self.<tasks>: <body>`
+    nested_leaf = False
+    nested_memo = None
+    for t, p in facts.node_conditions(prog, ins, call, ctx.typer, expand=False):
+        for a_, ap_ in facts.split_conj(t, p):
+            lt = leaf_test(a_, ap_)
+            if lt and isinstance(lt[0], ast.Name) and lt[0].id == task_p and lt[1]:
+                nested_leaf = True
+            mt = _member_test(a_, ap_, task_p)
+            if mt and not mt[3]:
+                nested_memo = (a_, mt[1], mt[2])
     nonleaf = [k for k in objs if not (k and k[-1] in ('leaves', 'leaf?'))]
-    has_summary_return = any('summary' in k for k, _ in early)
+    has_summary_return = any('summary' in k for k, _ in early) or nested_leaf
     if nonleaf and has_summary_return:
         o.refute(ins, call, U.path_text(nonleaf[0], task_p),
                  f"`{U.path_text(nonleaf[0], task_p)}` may contain tasks with children; the insert returns early for those without "
@@ -900,9 +1201,51 @@ def _inherit_registered(ctx, R: Roles, model, o_inh, o_reg):
 
     # (R4) inserted once: memo test dominates the memo store and the arc builder
     ts = model.get('tasks_store')
-    if memo is None:
-        o.refute(ins, ins.node, 'memo guard', f"no `if {task_p}.id in self.<tasks>: return` guard: a task reachable over two dependency "
-                                              f"chains is inserted twice and its second arc hides the first")
+    if memo is None and nested_memo is not None:
+        # the body of the insert is nested under the `not yet inserted` test
+        a_, tab_a, key_a = nested_memo
+        if ts is None or tab_a != tasks_attr or not match(f"{task_p}.{key_a}", ts[1]):
+            o.refute(ins, a_, 'memo guard', f"the `already inserted` test reads self.{unmangle(str(tab_a))} by `.{key_a}` but the insert "
+                                            f"records the task elsewhere / under another key: the guard never fires")
+        elif any(_member_test(x_, xp_, task_p) for t, p in cfg.conditions(cfg.node_of(ts[0])) for x_, xp_ in facts.split_conj(t, p)):
+            o.site(ins, a_, f"inserted once: the task is recorded and its arc built only under `{src(a_)[:60]}`")
+        else:
+            o.undecided(ins, ts[0], ts[0], "the arc is built under the `not yet inserted` test but the task is recorded outside of it")
+    elif memo is None:
+        # the test may sit at the call sites: `if p.id not in self.<tasks>: self.__insert_task(p)`
+        guarded_, bare_ = [], []
+        for owner in (R.init, ins):
+            for c in R.calls_to(owner, ins):
+                arg = c.args[0] if c.args else None
+                cs_ = []
+                for t, p in facts.node_conditions(prog, owner, c, ctx.typer, expand=False):
+                    cs_ += facts.split_conj(t, p)
+                if owner is R.init and model.get('end_none') and any(
+                        (lambda nt: nt and isinstance(nt[0], ast.Name) and nt[0].id == model.get('end_param') and not nt[1])(
+                            none_test(t, p)) for t, p in cs_):
+                    continue        # call site of the end_date mode
+                mts = [mt for mt in (_member_test(t, p) for t, p in cs_) if mt and not mt[3] and isinstance(arg, ast.Name)
+                       and mt[0] == arg.id]
+                ok_ = [mt for mt in mts if mt[1] == tasks_attr and ts is not None and match(f"{task_p}.{mt[2]}", ts[1])]
+                (guarded_ if ok_ else bare_).append(c)
+        other_tests = [n for n in walk_no_nested(ins.node) if isinstance(n, ast.Compare) and isinstance(n.ops[0], (ast.In, ast.NotIn))
+                       and any(isinstance(x, ast.Attribute) and x.attr == tasks_attr for x in ast.walk(n))]
+        if guarded_ and not bare_:
+            o.site(ins, guarded_[0], f"inserted once: every call of {ins.name} is guarded by `x.id not in self.{unmangle(str(tasks_attr))}`")
+        elif unknown_ret or (other_tests and not guarded_):
+            o.undecided(ins, ins.node, 'memo guard', "no recognised `already inserted` test; a membership test of the task table is "
+                                                     "present in a form the rule does not follow")
+        elif guarded_:
+            o.refute(ins, bare_[0], bare_[0], f"`{src(bare_[0])}` inserts without the `already inserted` test the other call sites "
+                                              f"make: a task reachable over two ways is inserted twice and its second arc hides the "
+                                              f"first")
+        else:
+            o.refute(ins, ins.node, 'memo guard', f"no `if {task_p}.id in self.<tasks>: return` guard: a task reachable over two "
+                                                  f"dependency chains is inserted twice and its second arc hides the first")
+    elif memo[1] == model.get('links_attr') and memo[2] == model.get('key_attr') and memo[1] != tasks_attr:
+        # `if task.id in self.<arc table>: return`: the arc is registered (unconditionally, R3) under the same key once the
+        # predecessors are in; on an acyclic WBS the recursion in between never comes back to the task
+        o.site(ins, memo[0], f"inserted once: `{task_p}.{memo[2]} in self.{unmangle(str(memo[1]))}` (the arc table) tested on entry")
     elif ts is None or memo[1] != tasks_attr or not match(f"{task_p}.{memo[2]}", ts[1]):
         o.refute(ins, memo[0], 'memo guard', f"the `already inserted` test reads self.{unmangle(str(memo[1]))} by `.{memo[2]}` but the "
                                              f"insert records the task elsewhere / under another key: the guard never fires")
@@ -912,6 +1255,29 @@ def _inherit_registered(ctx, R: Roles, model, o_inh, o_reg):
             o.site(ins, memo[0], f"inserted once: `{task_p}.{memo[2]} in self.{unmangle(tasks_attr)}` tested before the task is recorded")
         else:
             o.refute(ins, ts[0], ts[0], "the task is recorded as inserted before the `already inserted` test: every task is skipped")
+
+
+def _member_test(t: ast.AST, pol: bool, var: Optional[str] = None):
+    """(object name, table attribute, key attribute, is_member) for `x.k in self.tab` / `x.k not in self.tab` / `.keys()` /
+    `self.tab.get(x.k) is (not) None` under the given polarity; x must be `var` when given"""
+    while isinstance(t, ast.UnaryOp) and isinstance(t.op, ast.Not):
+        t, pol = t.operand, not pol
+    m = None
+    member = pol
+    if isinstance(t, ast.Compare) and len(t.ops) == 1 and isinstance(t.ops[0], (ast.In, ast.NotIn)):
+        pos = ast.Compare(left=t.left, ops=[ast.In()], comparators=t.comparators)
+        m = match("$x.$k in self.$tab", pos) or match("$x.$k in self.$tab.keys()", pos)
+        if isinstance(t.ops[0], ast.NotIn):
+            member = not pol
+    else:
+        m = match("self.$tab.get($x.$k) is not None", t)
+        if not m:
+            m = match("self.$tab.get($x.$k) is None", t)
+            if m:
+                member = not pol
+    if not m or not isinstance(m['x'], ast.Name) or (var is not None and m['x'].id != var):
+        return None
+    return m['x'].id, m['tab'], m['k'], member
 
 
 def _test_of(cfg, ret: ast.Return):
@@ -937,16 +1303,48 @@ def _passes(ctx, R: Roles, model, o, o_eq):
     ccfg = cfg_of(con)
     exc = Expander(prog, con, ctx.typer, inline=False)
     adj = {}
-    for c in facts.calls_named(con, 'append'):
-        recv = c.func.value
-        if isinstance(recv, ast.Attribute) and isinstance(recv.value, ast.Name) and recv.value.id in con.params and c.args:
-            v = exc.expand(c.args[0], ccfg.node_containing(c))
-            if same(v, model['connect_ctor']) or (isinstance(v, ast.Call) and getattr(v.func, 'id', None) == R.link_cls):
-                adj.setdefault(recv.value.id, []).append((recv.attr, c))
+    understood = set()          # statements of the connect helper the rule has accounted for
+
+    def is_link(v_, at_):
+        v_ = exc.expand(v_, at_)
+        return same(v_, model['connect_ctor']) or (isinstance(v_, ast.Call) and getattr(v_.func, 'id', None) == R.link_cls)
+
+    def one_elt(e_):
+        return e_.elts[0] if isinstance(e_, (ast.List, ast.Tuple)) and len(e_.elts) == 1 else None
+
+    for n_ in walk_no_nested(con.node):
+        recv = elt_ = None
+        stn = ccfg.node_containing(n_) if isinstance(n_, ast.expr) else (ccfg.node_of(n_) if isinstance(n_, ast.stmt) else None)
+        if isinstance(n_, ast.Call) and isinstance(n_.func, ast.Attribute) and n_.args and not n_.keywords:
+            nm_ = n_.func.attr
+            if nm_ == 'append' and len(n_.args) == 1:
+                recv, elt_ = n_.func.value, n_.args[0]
+            elif nm_ == 'insert' and len(n_.args) == 2:
+                recv, elt_ = n_.func.value, n_.args[1]
+            elif nm_ == 'extend' and len(n_.args) == 1:
+                recv, elt_ = n_.func.value, one_elt(n_.args[0])
+        elif isinstance(n_, ast.AugAssign) and isinstance(n_.op, ast.Add):
+            recv, elt_ = n_.target, one_elt(n_.value)                       # X.links += [link]
+        elif isinstance(n_, ast.Assign) and len(n_.targets) == 1 and isinstance(n_.value, ast.BinOp) and isinstance(n_.value.op, ast.Add) \
+                and same(n_.targets[0], n_.value.left):
+            recv, elt_ = n_.targets[0], one_elt(n_.value.right)             # X.links = X.links + [link]
+        if recv is None or elt_ is None or stn is None:
+            continue
+        if isinstance(recv, ast.Attribute) and isinstance(recv.value, ast.Name) and recv.value.id in con.params and is_link(elt_, stn):
+            adj.setdefault(recv.value.id, []).append((recv.attr, n_))
+            understood.add(id(ccfg.nodes[stn.id].ast))
     out_attr = [a for a, _ in adj.get(p_start, [])]
     in_attr = [a for a, _ in adj.get(p_end, [])]
     adj_ok = False
-    if len(out_attr) != 1 or len(in_attr) != 1:
+    # closed world: every other statement of the helper is the link construction, a return or a docstring
+    other = [st_ for st_ in con.node.body if id(st_) not in understood and not isinstance(st_, (ast.Return, ast.Pass)) and
+             not (isinstance(st_, ast.Expr) and isinstance(st_.value, ast.Constant)) and
+             not (isinstance(st_, (ast.Assign, ast.AnnAssign)) and st_.value is not None and isinstance(st_.value, ast.Call) and
+                  getattr(st_.value.func, 'id', None) == R.link_cls)]
+    if (len(out_attr) == 0 or len(in_attr) == 0) and other:
+        o.undecided(con, other[0], con.name, f"how {con.name} records a new link in its end nodes is not understood "
+                                             f"(`{src(other[0])[:70]}`)")
+    elif len(out_attr) != 1 or len(in_attr) != 1:
         o.refute(con, con.node, con.name, f"a new link is not appended to exactly one list of its start node and one list of its end "
                                           f"node (start: {out_attr}, end: {in_attr})")
     elif out_attr[0] == in_attr[0]:
@@ -967,16 +1365,22 @@ def _passes(ctx, R: Roles, model, o, o_eq):
     # ---- dependency arcs: pred.end -> start, 0 units
     loop = model.get('dep_loop')
     if loop is None:
-        for n in walk_no_nested(add.node):
-            if isinstance(n, ast.For) and isinstance(n.iter, ast.Name) and n.iter.id in add.params:
-                loop = n
+        for n, _pp in _param_loops(ctx, add):
+            loop = n
     links_attr = model.get('links_attr')
     exa = Expander(prog, add, ctx.typer, inline=False)
     acfg = cfg_of(add)
     dep_calls = [c for c in R.calls_to(add, con) if loop is not None and any(c is x for x in ast.walk(loop))]
     arc_start = model.get('arc_start')
     if loop is None or not dep_calls or arc_start is None:
-        o.refute(add, add.node, 'dependency arcs', "the arc builder adds no link between a predecessor's arc and the task's arc")
+        # closed world: besides the arc's own link the builder creates no link and calls nothing that could
+        n_links = len(R.calls_to(add, con))
+        foreign = [t for _, t in R.self_calls(add) if t is not con and t is not R.new_node]
+        if n_links <= 1 and not foreign and arc_start is not None:
+            o.refute(add, add.node, 'dependency arcs', "the arc builder adds no link between a predecessor's arc and the task's arc")
+        else:
+            o.undecided(add, add.node, 'dependency arcs', "where the arc builder links a predecessor's arc to the task's arc is not "
+                                                          "understood (no loop over the predecessor parameter with a connect call)")
     for c in dep_calls:
         b = bind_args(c, con)
         s = exa.expand(b.get(p_start), acfg.node_containing(c)) if b.get(p_start) is not None else None
@@ -1064,7 +1468,8 @@ def _passes(ctx, R: Roles, model, o, o_eq):
             # node -> sink
             sink = e
             if uc != 0:
-                o.refute(calc, c, c, f"link to the common sink has length `{src(u)}` instead of 0")
+                # the same length on every link into the sink moves the project length and takes it off again on the way back
+                o.undecided(calc, c, c, f"link to the common sink has length `{src(u)}` instead of 0 (a uniform shift, not judged)")
             elif flt == OUT:
                 o.site(calc, c, f"every node without outgoing links is joined to the common sink `{src(e)}` by a 0-length link")
             elif flt == IN:
@@ -1081,20 +1486,32 @@ def _passes(ctx, R: Roles, model, o, o_eq):
                     if cv == 0:
                         zero_set = True
                     else:
-                        o.refute(calc, st, st, f"the common source starts at `{src(val)}` instead of 0")
+                        # every node hangs below the common source: a positive constant shifts all times alike, a negative one is
+                        # clipped by the 0 start value of the forward fold - the floats do not change either way.  Not the
+                        # documented shape, but not demonstrably wrong.
+                        zero_set = True
+                        o.undecided(calc, st, st, f"the common source starts at `{src(val)}` instead of 0 (a uniform shift of all "
+                                                  f"times as long as every chain starts at the common source)")
+            # (the common source is redundant: a node without incoming links starts at the 0 of the forward fold anyway, so
+            #  an unusual source is reported as not understood, never as a violation)
             if uc != 0:
-                o.refute(calc, c, c, f"link from the common source has length `{src(u)}` instead of 0")
+                o.undecided(calc, c, c, f"link from the common source has length `{src(u)}` instead of 0 (a uniform shift, not judged)")
             elif flt == IN and zero_set:
                 o.site(calc, c, f"common source `{s.id}` at 0 joined to every node without incoming links")
             elif flt == OUT:
-                o.refute(calc, c, c, f"the common source is attached to the nodes without OUTGOING links")
+                o.undecided(calc, c, c, f"the common source is attached to the nodes without OUTGOING links")
             elif not zero_set:
-                o.refute(calc, c, c, f"the common source `{s.id}` has no earliest time 0 before the forward pass reads it")
+                o.undecided(calc, c, c, f"the common source `{s.id}` is given no earliest time in calc (the forward pass has to compute it)")
             else:
                 o.undecided(calc, c, c, "nodes joined to the source are not `[n for n in self.<nodes> if len(n.<incoming>) == 0]`")
         else:
             o.undecided(calc, c, c, "link added in calc is neither source->node nor node->sink")
-    if sink is None:
+    unread_joins = [c for c in R.calls_to(calc, con) if not ccfg2.enclosing_fors(ccfg2.node_containing(c))] or \
+        [t for _, t in R.self_calls(calc) if t not in (con, fwd, bwd) and R.calls_to(t, con)]
+    if sink is None and (unread_joins or o.unknown):
+        o.undecided(calc, calc.node, 'common sink', "no link `node -> fresh sink node` recognised in a loop of calc, but links are "
+                                                    "created in a form the rule does not follow")
+    elif sink is None:
         o.refute(calc, calc.node, 'common sink', "no common sink node: every chain end takes its own earliest time as latest time, so "
                                                  "the last task of every chain looks critical whatever its length")
     # pass loops: forward over all nodes and the sink, backward over all nodes
@@ -1119,7 +1536,10 @@ def _passes(ctx, R: Roles, model, o, o_eq):
                     for el in part.elts:
                         if sink is not None and (same(el, sink) or same(exk.expand(el), exk.expand(sink))):
                             covered_sink = True
-        if not covered_nodes:
+        if not covered_nodes and (not nodes_attr or nodes_attr.startswith('_unidentified_')):
+            o.undecided(calc, cs[0] if cs else calc.node, f"{what} loop", f"the calculator's node list was not identified (see "
+                                                                           f"C12.leaf-arcs): cannot tell what the {what} pass ranges over")
+        elif not covered_nodes:
             o.refute(calc, cs[0] if cs else calc.node, f"{what} loop", f"the {what} pass is not run for every node of self.{unmangle(nodes_attr or '?')}")
         elif what == 'forward' and sink is not None and not covered_sink:
             o.refute(calc, cs[0], cs[0], "the forward pass is never run for the common sink: the project length (its earliest time) is "
@@ -1234,6 +1654,21 @@ def _check_pass(ctx, R, o, p: Func, what: str, field, op, links, far, sign, othe
     cfg = cfg_of(p)
     node_p = p.params[1]
     stores = [(st, val) for st, tgt, val in facts.attr_stores(p, field) if isinstance(tgt.value, ast.Name) and tgt.value.id == node_p]
+    # guard clause for the node without links: `if len(node.<links>) == 0: node.<field> = D; return` next to the fold
+    empty_store = None
+    if len(stores) == 2:
+        def _empty_cond(s_):
+            for t_, pp_ in cfg.conditions(cfg.node_of(s_)):
+                for a_, ap_ in facts.split_conj(t_, pp_):
+                    et_ = empty_test(a_, ap_)
+                    if et_ and et_[1] and match(f"{node_p}.$a", et_[0]):
+                        return et_[0]
+            return None
+        e0, e1 = _empty_cond(stores[0][0]), _empty_cond(stores[1][0])
+        if (e0 is None) != (e1 is None):
+            dflt, main = (stores[0], stores[1]) if e0 is not None else (stores[1], stores[0])
+            if not cfg.can_reach(cfg.node_of(dflt[0]), cfg.node_of(main[0])):
+                stores, empty_store = [main], (dflt, e0 if e0 is not None else e1)
     if len(stores) != 1:
         o.undecided(p, p.node, p.name, f"{len(stores)} stores of {node_p}.{field}")
         return
@@ -1244,6 +1679,13 @@ def _check_pass(ctx, R, o, p: Func, what: str, field, op, links, far, sign, othe
         o.undecided(p, e.node if hasattr(e.node, 'lineno') else st, e.node if isinstance(e.node, ast.AST) else st,
                     f"{what} pass: " + e.msg)
         return
+    if empty_store is not None:
+        (dst, dval), elist = empty_store
+        if not same(elist, fo.iter) or fo.default is not None:
+            o.undecided(p, dst, dst, f"{what} pass: second store of {node_p}.{field} under an emptiness test the rule cannot relate to "
+                                     f"the fold over `{src(fo.iter)}`")
+            return
+        fo.default = Expander(prog, p, ctx.typer).expand(dval, cfg.node_of(dst))
     lv = fo.var
     bad = False
     if fo.op != op:
@@ -1251,6 +1693,17 @@ def _check_pass(ctx, R, o, p: Func, what: str, field, op, links, far, sign, othe
                                          + ("earliest time must be the LONGEST way in" if op == 'max' else
                                             "latest time must be the tightest successor bound"))
         bad = True
+    if getattr(fo, 'falsy', None) is not None:
+        if fo.op == 'min':
+            bad = True
+            o.refute(p, st, fo.falsy, f"{what} pass decides whether the running minimum is still unset by its truthiness "
+                                      f"(`{src(fo.falsy)[:60]}`): a time of exactly 0 counts as 'unset' and is overwritten by the next "
+                                      f"link's value, so the minimum over the links is lost for nodes at time 0 (zero-length tasks at "
+                                      f"the project start get float); expected an `is None` test")
+        else:
+            o.undecided(p, st, fo.falsy, f"{what} pass decides whether the running maximum is still unset by its truthiness "
+                                         f"(`{src(fo.falsy)[:60]}`): equivalent to an `is None` test only while no time is negative")
+            return
     itx = fo.iter
     m = match(f"{node_p}.$a", itx)
     if not m:
@@ -1395,8 +1848,31 @@ def _selection(ctx, R: Roles, model, o) -> Optional[dict]:
         o.undecided(calc, ret, ret, "returned expression does not mention exactly one local list")
         return None
     L = names[0].id
-    ds = fl.reaching(L, rn)
     res = dict(list=L, ret=ret, ret_value=ret.value)
+
+    def live(defs):
+        """definitions that can take effect when no end date was given"""
+        out = []
+        for d in defs:
+            dead_ = False
+            if d.node is not None and end_attr:
+                for t, p in cfg.conditions(d.node):
+                    nt = none_test(t, p)
+                    if nt and match(f"self.{end_attr}", nt[0]) and not nt[1]:
+                        dead_ = True
+            if not dead_:
+                out.append(d)
+        return out
+
+    ds = live(fl.reaching(L, rn))
+    # `res = selected` (the list is built under another name, e.g. by a spliced helper): follow the alias
+    for _ in range(4):
+        if len(ds) == 1 and ds[0].kind == 'assign' and isinstance(ds[0].value, ast.Name) and ds[0].node is not None \
+                and ds[0].value.id != calc.self_name and fl.reaching(ds[0].value.id, ds[0].node):
+            L, rn = ds[0].value.id, ds[0].node
+            ds = live(fl.reaching(L, rn))
+        else:
+            break
     ex = Expander(prog, calc, ctx.typer)
 
     def table_iter(it):
